@@ -1,0 +1,30 @@
+//go:build verif
+
+package packfile
+
+import (
+	"bufio"
+	"bytes"
+	"io"
+
+	"github.com/go-git/go-git/v6/plumbing"
+	format "github.com/go-git/go-git/v6/plumbing/format/config"
+)
+
+// VerifPatchDelta exposes the buffer applier patchDelta (without the
+// PatchDelta wrapper's guards) to the verification harness.
+func VerifPatchDelta(src, delta []byte) ([]byte, error) {
+	b := &bytes.Buffer{}
+	if err := patchDelta(b, src, delta); err != nil {
+		return nil, err
+	}
+	return b.Bytes(), nil
+}
+
+// VerifPatchDeltaWriter exposes the pack parser's applier patchDeltaWriter.
+// The declared size and the hash it returns are handed back unchanged.
+func VerifPatchDeltaWriter(base io.ReaderAt, delta io.Reader) ([]byte, uint, plumbing.Hash, error) {
+	dst := &bytes.Buffer{}
+	sz, h, err := patchDeltaWriter(dst, base, bufio.NewReader(delta), plumbing.BlobObject, nil, format.SHA1)
+	return dst.Bytes(), sz, h, err
+}
